@@ -445,9 +445,35 @@ func (x *Exec) intBinop(st *State, op token.Token, a, b Val, rt types.Type, w in
 				return Val{T: rt, K: KScalar, S: app("mod", A, m.String())}
 			}
 		}
-		x.unsupported("bitwise and in int mode")
+		if signed {
+			x.unsupported("bitwise and on signed operands in int mode")
+		}
+		// sound approximation: 0 <= a&b <= min(a,b)
+		rv := x.freshConst("band", "Int")
+		st.assume(and(app("<=", "0", rv), app("<=", rv, A), app("<=", rv, B)))
+		return Val{T: rt, K: KScalar, S: rv}
 	case token.OR, token.XOR, token.AND_NOT:
-		x.unsupported("bitwise %s in int mode", op)
+		if signed {
+			x.unsupported("bitwise %s on signed operands in int mode", op)
+		}
+		// sound approximation of the bit operation on non-negative integers, exact where the operands provably occupy
+		// disjoint bit ranges (the shift-and-or idiom of encoding/binary): then a|b = a^b = a+b
+		rv := x.freshConst("bits", "Int")
+		switch op {
+		case token.OR:
+			st.assume(and(app("<=", A, rv), app("<=", B, rv), app("<=", rv, app("+", A, B))))
+		case token.XOR:
+			st.assume(and(app("<=", "0", rv), app("<=", rv, app("+", A, B))))
+		case token.AND_NOT:
+			st.assume(and(app("<=", "0", rv), app("<=", rv, A)))
+			return Val{T: rt, K: KScalar, S: rv}
+		}
+		for k := 8; k < w; k += 8 {
+			p := pow2(k).String()
+			disj := or(and(eq(app("mod", A, p), "0"), app("<", B, p)), and(eq(app("mod", B, p), "0"), app("<", A, p)))
+			st.assume(implies(disj, eq(rv, app("+", A, B))))
+		}
+		return Val{T: rt, K: KScalar, S: rv}
 	default:
 		x.unsupported("int binop %s", op)
 	}
